@@ -4,14 +4,15 @@ package c02
 import (
 	"fmt"
 	"go/types"
+	"sort"
 
 	"golang.org/x/tools/go/ssa"
 
 	"polycheck/eng"
-	"polycheck/ssau"
 	"polycheck/ob"
 	"polycheck/props"
 	mc "polycheck/props/meshcommon"
+	"polycheck/ssau"
 )
 
 func init() {
@@ -241,4 +242,47 @@ func generators(c *props.Ctx) {
 	}
 	c.R.Floor("GEN-3", 10)
 	c.R.Floor("GEN-LEN", 3)
+	// GEN-BOUND: polynomial index formulas stay below the vertex count
+	notCovered := 0
+	sites := map[string]int{}
+	for _, fn := range fns {
+		if p.IsControl(fn.Pos()) {
+			continue
+		}
+		bs, nc := eng.GeneratorBounds(fn, mc.ModelingPath)
+		notCovered += nc
+		for _, b := range bs {
+			sk := p.FuncName(fn) + "→index-site@" + fmt.Sprint(ssau.PosOf(b.At))
+			if _, ok := sites[sk]; !ok {
+				sites[sk] = len(sites) + 1
+			}
+			_ = sk
+		}
+		// number the emission sites of one function in source order
+		order := map[ssa.Instruction]int{}
+		for _, b := range bs {
+			if _, ok := order[b.At]; !ok {
+				order[b.At] = 0
+			}
+		}
+		var ats []ssa.Instruction
+		for at := range order {
+			ats = append(ats, at)
+		}
+		sort.Slice(ats, func(i, j int) bool { return ssau.PosOf(ats[i]) < ssau.PosOf(ats[j]) })
+		for i, at := range ats {
+			order[at] = i + 1
+		}
+		for _, b := range bs {
+			construct := fmt.Sprintf("%s→emit#%d[%s]", p.FuncName(fn), order[b.At], b.Key)
+			if b.OK {
+				c.R.Hold("GEN-BOUND", construct, p.Pos(ssau.PosOf(b.At)), b.Detail)
+			} else {
+				c.R.Violate("GEN-BOUND", construct, p.Pos(ssau.PosOf(b.At)), b.Detail)
+			}
+		}
+	}
+	c.R.Floor("GEN-BOUND", 40)
+	c.R.Extra["gen_bound_elements_not_covered"] = notCovered
+	c.R.Note(fmt.Sprintf("GEN-BOUND: %d emitted index elements / meshes lie outside the polynomial fragment (data-dependent formula, unknown vertex count, no certificate and no witness) and carry no obligation", notCovered))
 }
